@@ -10,6 +10,44 @@ from ..operations import Gate
 from .instruction import Instruction
 
 
+# Number of control qubits of the matrix of each library gate whose
+# matrix does not change if its control qubits or its target qubits
+# are exchanged among themselves.
+# The first qubits the gate acts on are its controls, the others its targets,
+# no matter how they were divided into ``controls`` and ``targets``
+# (``TOFFOLI(targets=[0, 1, 2])``, ``Gate("CNOT", targets=[0, 1])``).
+_NUM_CONTROLS = dict.fromkeys(
+    "X Y Z RX RY RZ H SNOT SQRTNOT S T R QASMU PHASEGATE IDLE SWAP ISWAP "
+    "iSWAP SQRTSWAP SQRTISWAP SWAPALPHA SWAPalpha BERKELEY MS".split(),
+    0,
+)
+_NUM_CONTROLS.update(
+    dict.fromkeys(
+        "CNOT CX CY CZ CSIGN CS CT CRX CRY CRZ CPHASE FREDKIN".split(), 1
+    )
+)
+_NUM_CONTROLS["TOFFOLI"] = 2
+
+
+def _controls_and_targets(instruction):
+    """
+    The control and the target qubits of the instruction as its matrix
+    sees them, in a form in which equal lists mean equal roles.
+    """
+    controls = list(
+        getattr(instruction, "ordered_controls", instruction.controls or ())
+    )
+    targets = list(
+        getattr(instruction, "ordered_targets", instruction.targets or ())
+    )
+    num_controls = _NUM_CONTROLS.get(instruction.name)
+    if num_controls is None:
+        # RZX or a user-defined gate: the order matters.
+        return controls, targets
+    qubits = controls + targets
+    return sorted(qubits[:num_controls]), sorted(qubits[num_controls:])
+
+
 class InstructionsGraph:
     """
     A directed acyclic graph (DAG) representation
@@ -569,6 +607,11 @@ class Scheduler:
         If they are the same gate, have the same controls and
         act on disjoint targets, they are considered as commuting.
         E.g. `CNOT 0, 1` commute with `CNOT 0, 2`.
+        Controls and targets are the qubits the matrix of the gate treats
+        as such (for ``TOFFOLI(targets=[0, 1, 2])`` the controls are 0 and 1),
+        and two applications of ``RZX`` or of a user-defined gate have
+        the same targets only if the targets are listed in the same order.
+        User-defined gates commute only with an identical copy.
         """
         instruction1 = instructions[ind1]
         instruction2 = instructions[ind2]
@@ -577,11 +620,14 @@ class Scheduler:
                 [instruction1, instruction2],
                 key=lambda instruction: instruction.name,
             )
+        controls1, targets1 = _controls_and_targets(instruction1)
+        controls2, targets2 = _controls_and_targets(instruction2)
+        if instruction1.name != instruction2.name:
             if instruction1.name == "CNOT" and instruction2.name in (
                 "X",
                 "RX",
             ):
-                if instruction1.targets == instruction2.targets:
+                if targets1 == targets2:
                     commute = True
                 else:
                     commute = False
@@ -589,14 +635,27 @@ class Scheduler:
                 "Z",
                 "RZ",
             ):
-                if instruction1.controls == instruction2.targets:
+                if controls1 == targets2:
                     commute = True
                 else:
                     commute = False
             else:
                 commute = False
             return commute
-        if instruction1.targets == instruction2.targets:
+        if (
+            instruction1.name not in _NUM_CONTROLS
+            and instruction1.name != "RZX"
+        ):
+            # Nothing is known about a user-defined gate:
+            # only two applications of the same operator commute.
+            return (
+                controls1 == controls2
+                and targets1 == targets2
+                and np.array_equal(
+                    instruction1.gate.arg_value, instruction2.gate.arg_value
+                )
+            )
+        if targets1 == targets2:
             # The same gate on the same targets: rotations around a fixed
             # axis commute. Gates with several parameters only
             # if the parameters are the same.
@@ -608,15 +667,11 @@ class Scheduler:
                 commute = True
             else:
                 commute = np.array_equal(arg1, arg2)
-        elif (instruction1.controls) and (
-            instruction1.controls == instruction2.controls
-        ):
+        elif controls1 and controls1 == controls2:
             # The same controls: the gates commute if they act on
             # different targets, e.g. not for two FREDKIN gates that
             # swap overlapping pairs of qubits.
-            commute = not (
-                set(instruction1.targets) & set(instruction2.targets)
-            )
+            commute = not (set(targets1) & set(targets2))
         else:
             commute = False
         return commute
